@@ -14,11 +14,12 @@ import (
 // another module).  a2 imports m as "m", c as "z".  Expressions sit in a grouping and a typedef of b (used
 // from m), directly in m, and under an augment of m written in a2.
 
-var scopePrefixes = map[string][]string{"b": {"b", "x"}, "m": {"m", "b", "y", "x"}, "a2": {"a2", "m", "z"}}
+var scopePrefixes = map[string][]string{"b": {"b", "x"}, "m": {"m", "b", "y", "x"}, "a2": {"a2", "m", "z"}, "ms": {"w"}}
 var scopeNs = map[string]map[string]string{
 	"b":  {"b": "urn:b", "x": "urn:c"},
 	"m":  {"m": "urn:m", "b": "urn:b", "y": "urn:c", "x": "urn:d"},
 	"a2": {"a2": "urn:a2", "m": "urn:m", "z": "urn:c"},
+	"ms": {"w": "urn:e"}, // submodule ms of m: its own import only (the prefix of its belongs-to statement cannot be used)
 }
 
 func genXPathText(r *Rng, scope string, leafref bool) (string, string) {
@@ -29,7 +30,7 @@ func genXPathText(r *Rng, scope string, leafref bool) (string, string) {
 	if r.Chance(3) {
 		// a prefix that is not imported where the text is written (it may well be known where it is used)
 		// — a prefix bound in another module, or the name of a module that is imported here under another prefix
-		knownPrefixes = []string{pick(r, map[string][]string{"b": {"y", "c"}, "m": {"z", "c", "d"}, "a2": {"y", "c"}}[scope])}
+		knownPrefixes = []string{pick(r, map[string][]string{"b": {"y", "c"}, "m": {"z", "c", "d"}, "a2": {"y", "c"}, "ms": {"y", "e", "b"}}[scope])}
 		fault = "prefix"
 	}
 	var s string
@@ -117,6 +118,15 @@ func genYXPCase(r *Rng) Case {
 	if r.Chance(30) {
 		ex["a2.augwhen"] = mk("a2", false)
 	}
+	if r.Chance(35) { // on a leaf-list of b's grouping, and one more added by a refine in m: both are kept
+		ex["b.llmust"] = mk("b", false)
+	}
+	if r.Chance(30) {
+		ex["m.llrefmust"] = mk("m", false)
+	}
+	if r.Chance(25) { // in an rpc written in a submodule of m: an expression of the module
+		ex["s.rpcmust"] = mk("ms", false)
+	}
 	if r.Chance(25) { // in a grouping of m that nothing uses: an expression of the module all the same
 		ex["u.must"] = mk("m", false)
 	}
@@ -160,18 +170,27 @@ func yxpTexts(c Case) []string {
 	bm := "module b { namespace \"urn:b\"; prefix b; import c { prefix x; }\n" +
 		"  typedef bt { " + typeOr("b.tpath") + " }\n" +
 		"  grouping bg {\n    leaf bl { type string;" + get("b.must", "must") + get("b.must2", "must") + get("b.when", "when") + " }\n" +
-		"    leaf br { " + typeOr("b.path") + " }\n  }\n  grouping kg { leaf bk { type string; } }\n}\n"
+		"    leaf br { " + typeOr("b.path") + " }\n    leaf-list bll { type string;" + get("b.llmust", "must") + " }\n  }\n  grouping kg { leaf bk { type string; } }\n}\n"
 	unused := ""
 	if _, ok := ex["u.must"]; ok {
 		unused = "  grouping ug { leaf ul { type string;" + get("u.must", "must") + " } }\n"
 	}
-	mm := "module m { namespace \"urn:m\"; prefix m; import b { prefix b; } import c { prefix y; } import d { prefix x; }\n" + unused +
-		"  container mtop {\n    uses b:bg" + usesBody(get("m.useswhen", "when")+refineBody(get("m.refmust", "must"))) + "\n    leaf ml { type string;" + get("m.must", "must") + get("m.must2", "must") + " }\n" +
+	include, sub := "", ""
+	if _, ok := ex["s.rpcmust"]; ok {
+		include = " include ms;"
+		sub = "submodule ms { belongs-to m { prefix m; } import e { prefix w; }\n  rpc subr { input { leaf sx { type string;" + get("s.rpcmust", "must") + " } } }\n}\n"
+	}
+	mm := "module m { namespace \"urn:m\"; prefix m; import b { prefix b; } import c { prefix y; } import d { prefix x; }" + include + "\n" + unused +
+		"  container mtop {\n    uses b:bg" + usesBody(get("m.useswhen", "when")+refineBody(get("m.refmust", "must"))+strings.Replace(refineBody(get("m.llrefmust", "must")), "refine bl ", "refine bll ", 1)) + "\n    leaf ml { type string;" + get("m.must", "must") + get("m.must2", "must") + " }\n" +
 		"    leaf mt { type b:bt; }\n    leaf mr { " + typeOr("m.path") + " }\n" +
 		"    list mlist { key mk; leaf mk { type string;" + get("m.keymust", "must") + get("m.keywhen", "when") + " } leaf mv { type string; } }\n" +
 		"    list blist { key bk; uses b:kg" + usesBody(get("m.kuwhen", "when")) + " }\n  }\n}\n"
 	am := "module a2 { namespace \"urn:a2\"; prefix a2; import m { prefix m; } import c { prefix z; }\n" +
 		"  augment /m:mtop {" + get("a2.augwhen", "when") + "\n    leaf al { type string;" + get("a2.must", "must") + get("a2.must2", "must") + get("a2.when", "when") + " }\n  }\n}\n"
+	if sub != "" {
+		em := `module e { namespace "urn:e"; prefix e; container etop { leaf a { type string; } } }`
+		return []string{cm, dm, bm, mm, am, em, sub}
+	}
 	return []string{cm, dm, bm, mm, am}
 }
 
@@ -229,7 +248,7 @@ func runYXP(c Case) string {
 				named = "names-expression"
 			}
 		}
-		for _, n := range []string{"leaf bl", "leaf br", "leaf ml", "leaf mt", "leaf mr", "leaf al", "leaf mk", "leaf bk", "uses b:kg", "typedef bt", "type leafref", "must ", "when ", "path "} {
+		for _, n := range []string{"leaf bl", "leaf br", "leaf ml", "leaf mt", "leaf mr", "leaf al", "leaf mk", "leaf bk", "leaf sx", "leaf-list bll", "uses b:kg", "typedef bt", "type leafref", "must ", "when ", "path "} {
 			if strings.Contains(s, ": "+n) {
 				named += "+statement"
 				break
@@ -239,7 +258,7 @@ func runYXP(c Case) string {
 	}
 	top := ms.Child("mtop")
 	var out []string
-	for _, ln := range []string{"bl", "br", "ml", "mt", "mr", "al", "mlist/mk", "blist/bk"} {
+	for _, ln := range []string{"bl", "br", "ml", "mt", "mr", "al", "mlist/mk", "blist/bk", "bll"} {
 		n := top
 		for _, seg := range strings.Split(ln, "/") {
 			if _, isList := n.(schema.List); isList && n != nil {
@@ -269,6 +288,19 @@ func runYXP(c Case) string {
 		sort.Strings(obs)
 		out = append(out, ln+":"+strings.Join(obs, ","))
 	}
+	// the leaf in the input of the rpc that the submodule of m defines
+	sx := "sx:"
+	if _, ok := cmap(c, "exprs")["s.rpcmust"]; ok {
+		sx = "sx:absent"
+		if rp, ok := ms.Rpcs()["urn:m"]["subr"]; ok && rp.Input().Child("sx") != nil {
+			var obs []string
+			for _, m := range rp.Input().Child("sx").Musts() {
+				obs = append(obs, machObs("must", m.Mach))
+			}
+			sx = "sx:" + strings.Join(obs, ",")
+		}
+	}
+	out = append(out, sx)
 	return "ok\n" + strings.Join(out, "\n")
 }
 
